@@ -59,30 +59,29 @@ class BuildFailed(Exception):
     pass
 
 
-_built = False
+_built = set()
 
 
-def build_harness():
-    """cargo build of the harness crate (path-dependency on /repo's working tree, hooks on)."""
-    global _built
-    if _built:
+def build_harness(pkg="vh"):
+    """cargo build of one harness crate (path-dependency on /repo's working tree, hooks on)."""
+    if pkg in _built:
         return
     with Lock("cargo"):
         t = time.time()
         p = subprocess.run(
-            ["timeout", "1200", "cargo", "build", "--offline", "--bins"],
+            ["timeout", "1200", "cargo", "build", "--offline", "-p", pkg, "--bins"],
             cwd=os.path.join(VERIF, "harness"), env=env_offline(),
             stdout=subprocess.PIPE, stderr=subprocess.STDOUT, text=True)
         if p.returncode != 0:
             raise BuildFailed(p.stdout[-6000:])
-        log(f"[build] harness built against {REPO} in {time.time()-t:.1f}s")
-    _built = True
+        log(f"[build] harness crate {pkg} built against {REPO} in {time.time()-t:.1f}s")
+    _built.add(pkg)
 
 
-def run_bin(name, args, lines=None, timeout=900, raw=False, env=None):
+def run_bin(name, args, lines=None, timeout=900, raw=False, env=None, pkg="vh"):
     """Run a harness binary; `lines` is an iterable of JSON-serialisable cases fed on stdin.
     Returns the list of decoded JSON output lines (or raw stdout)."""
-    build_harness()
+    build_harness(pkg)
     inp = None
     if lines is not None:
         inp = "".join(json.dumps(x, ensure_ascii=False) + "\n" for x in lines)
@@ -96,9 +95,9 @@ def run_bin(name, args, lines=None, timeout=900, raw=False, env=None):
     return [json.loads(l) for l in p.stdout.splitlines() if l.strip()]
 
 
-def run_bin_parallel(name, args, cases, shards=NCPU, timeout=900):
+def run_bin_parallel(name, args, cases, shards=NCPU, timeout=900, pkg="vh"):
     """Shard `cases` over several processes, keep order."""
-    build_harness()
+    build_harness(pkg)
     if not cases:
         return []
     shards = max(1, min(shards, len(cases) // 50 + 1))
